@@ -17,10 +17,11 @@ import DustVerif.Props.C40
 
     FALSE for the code as it is (Lean witness, replayed on the real compiler in vlib/gen_idl.py `corpus`, known finding):
       multi-dimensional arrays (D-gen-11), bounds dropped (D-gen-10), wchar / wstring (D-gen-12), octet (D-gen-13), annotated unions
-      are a syntax error (D-gen-22), typedef arrays panic (D-gen-23), `>>` (D-gen-29).
-    REPAIRED in follow-up 2 (model = repaired code, old behaviour kept as `…_old_counterexample` on `…Old` functions):
+      are a syntax error (D-gen-22), typedef arrays panic (D-gen-23), @bit_bound spelling (D-gen-24: `C41_bit_bound_counterexample`,
+      `_partial`, `_fixed`), TRUE / FALSE constants (D-gen-28: `C41_boolean_constant_counterexample`, `C41_constant_partial`), `>>` (D-gen-29).
+    REPAIRED and committed (model = repaired code, old behaviour kept as `…_old_counterexample` on `…Old` functions):
       only the first #[dust_dds] attribute was read (D-gen-14), annotations reached only the first declarator (D-gen-15),
-      @extensibility(..) ignored (D-gen-16), @bit_bound spelling (D-gen-24), TRUE / FALSE constants (D-gen-28). -/
+      @extensibility(..) ignored (D-gen-16). -/
 namespace DustVerif.Idl
 open DustVerif.Derive
 
@@ -374,32 +375,61 @@ theorem C41_union_annotation_counterexample :
 theorem C41_typedef_array_counterexample :
     outcome (.cons (.typedef (.base .long) [{ name := "Arr3", dims := [3] }]) .nil) = .panic := by decide
 
-/-- D-gen-24, REPAIRED (fixes/D-gen-24.patch): `@bit_bound(8) enum Small { A, B };` is written as `#[dust_dds(bit_bound = "8")]` and
-    compiles to an enumeration held in an INT8 -/
-theorem C41_bit_bound :
-    outcome (.cons (.enum { name := "Small", bitBound := some 8, enumerators := [("A", none), ("B", none)] }) .nil) = .ok ∧
-    (types (.cons (.enum { name := "Small", bitBound := some 8, enumerators := [("A", none), ("B", none)] }) .nil)).map
-      (fun e => (describe e.2).kind) = [.enum] ∧
-    ∀ e : RustEnum, e.bitBoundAttr = some 16 → ∀ t, elabEnum e = some t → t = .enum { ident := e.name, rename := e.nameAttr, nested := false, bits := 16, variants := e.variants, dflt := 0 } := by
-  refine ⟨by decide, by decide, ?_⟩
-  intro e he t ht
-  simp only [elabEnum, he, Option.getD_some] at ht
-  split at ht
-  · split at ht
-    · cases ht; rfl
-    · cases ht
-  · cases ht
+/-- D-gen-24 (open) — `@bit_bound(8) enum Small { A, B };` is written as `#[dust_dds(bit_bound( 8))]`, which the derive rejects:
+    EVERY enum with @bit_bound fails to compile -/
+theorem C41_bit_bound_counterexample :
+    outcome (.cons (.enum { name := "Small", bitBound := some 8, enumerators := [("A", none), ("B", none)] }) .nil) = .rustc ∧
+    ∀ (e : RustEnum) (n : Nat), e.bitBoundAttr = some n → elabEnum e = none := by
+  refine ⟨by decide, ?_⟩
+  intro e n h
+  simp [elabEnum, h]
 
-/-- regression witness: AS IT WAS, `#[dust_dds(bit_bound( 8))]` was written and every enum with @bit_bound failed to compile -/
-theorem C41_bit_bound_old_counterexample (e : RustEnum) (n : Nat) (h : e.bitBoundAttr = some n) : elabEnumOld e = none := by
-  simp [elabEnumOld, h]
+/-- what holds as it is: an enum WITHOUT @bit_bound is understood by the derive as an enumeration held in an INT32, with the
+    declared enumerators and @value discriminants, under its (qualified) name -/
+theorem C41_bit_bound_partial (mods : List String) (d : EnumDef) (hb : d.bitBound = none) (t : Ty)
+    (h : elabEnum (mapEnum mods d) = some t) :
+    t = .enum { ident := d.name, rename := (if mods.isEmpty then none else some (qualified mods d.name)), nested := false,
+                bits := 32, variants := d.enumerators, dflt := 0 } ∧
+    (describe t).kind = .enum := by
+  simp only [elabEnum, mapEnum, hb] at h
+  generalize hr : (if mods.isEmpty = true then none else some (qualified mods d.name)) = rn at h ⊢
+  by_cases hsup : supported (Ty.enum { ident := d.name, rename := rn, nested := false, bits := 32, variants := d.enumerators, dflt := 0 }) = true
+  · simp only [hsup, if_true, Option.some.injEq] at h
+    subst h; exact ⟨rfl, rfl⟩
+  · simp [hsup] at h
 
-/-- D-gen-28, REPAIRED (fixes/D-gen-28.patch): `const boolean Flag = TRUE;` compiles (`TRUE` is written `true`);
-    regression witness: AS IT WAS it did not -/
-theorem C41_boolean_constant :
+example : elabEnum (mapEnum ["M"] { name := "Colors", bitBound := none, enumerators := [("RED", none), ("GREEN", some 5)] }) ≠ none := by decide
+
+/-- the raised statement, about the REPAIRED variant `elabEnumFixed` (fixes/D-gen-24.patch or the test-neutral fixes/D-gen-24b.patch):
+    @bit_bound(8|16|32) compiles and selects the holder type -/
+theorem C41_bit_bound_fixed (e : RustEnum) (n : Nat) (hn : e.bitBoundAttr = some n) (t : Ty) (h : elabEnumFixed e = some t) :
+    (n = 8 ∨ n = 16 ∨ n = 32) ∧
+    t = .enum { ident := e.name, rename := e.nameAttr, nested := false, bits := n, variants := e.variants, dflt := 0 } := by
+  simp only [elabEnumFixed, hn, Option.getD_some] at h
+  split at h
+  · rename_i hb
+    split at h
+    · cases h
+      simp only [Bool.or_eq_true, beq_iff_eq] at hb
+      exact ⟨by rcases hb with (h1 | h2) | h3 <;> simp_all, rfl⟩
+    · cases h
+  · cases h
+
+example : elabEnumFixed { name := "Small", nameAttr := none, bitBoundAttr := some 8, variants := [("A", none), ("B", none)] } ≠ none := by decide
+
+/-- D-gen-28 (open) — `const boolean Flag = TRUE;` is copied as `pub const Flag:bool=TRUE;`, which is not Rust: a specification
+    with a boolean constant does not compile -/
+theorem C41_boolean_constant_counterexample :
     outcome (.cons (.const { name := "Flag", ty := .base .boolean, text := "TRUE" })
-      (.cons (.struct { name := "S", anns := [], members := [{ anns := [], ty := .base .long, decls := [{ name := "a", dims := [] }] }] }) .nil)) = .ok ∧
-    constCompilesOld (.prim .bool) = false := by decide
+      (.cons (.struct { name := "S", anns := [], members := [{ anns := [], ty := .base .long, decls := [{ name := "a", dims := [] }] }] }) .nil)) = .rustc ∧
+    constCompiles (constTy 0 (.base .boolean)) = false := by decide
+
+/-- what holds as it is: constants of every other base type and string constants are accepted;
+    and, about the REPAIRED variant (fixes/D-gen-28.patch), boolean constants too -/
+theorem C41_constant_partial (depth : Nat) (b : Base) (hb : b ≠ .boolean) :
+    constCompiles (constTy depth (.base b)) = true ∧ constCompiles (constTy depth (.str none)) = true ∧
+    constCompilesFixed (constTy depth (.base .boolean)) = true := by
+  cases b <;> simp_all [constCompiles, constCompilesFixed, constTy, mapType, mapBase]
 
 /-- D-gen-29 — `sequence<string<8>> names;`: `8>>` is read as a shift expression -/
 theorem C41_shift_counterexample :
